@@ -7,10 +7,30 @@ exists in the older protocol the *same handler computation* is selected by the n
 same major line for every message, and across 1.x → 2.x up to the missing-node/child decorator
 (which is transparent while no unknown node or child is referenced) and except gateway-ready.
 The one stated exception, the heartbeat response in 2.2, is `heartbeat_exception`.
+
+Whole histories, by induction over any list of received lines (each with its own write-fault
+schedule) and `send` calls, equal outcomes and writes at every step and agreeing final states:
+* same major line: `history_stable` (via `step_stable`);
+* across the lines, v ∈ {1.4, 1.5} and w ≥ 2.0: `history_stable_across_lines` — hypothesis on what
+  the older run shows (no step ends in a `MissingNodeError` / `MissingChildError`), for gateways
+  that know their version (which two gateways on different lines always do) — and
+  `history_stable_across_lines_handlers`, the same with the hypothesis on the error the older
+  handler raises, which also covers the phase before a version is known (there a failed version
+  query can replace the missing error, so the outcome alone does not tell).  Both via
+  `step_stable_across_lines`; the relation carried along is `CrossSt`: the states agree
+  (`SimSt`) and, while the two still run different protocols, hold no presentation-request marker.
+  Ingredients (`Lemmas/Across.lean`): where no marker is held and the 1.x handler raises no missing
+  error, the 2.x dispatch *is* the 1.x dispatch (`dispatch_across`: the decorator is transparent,
+  the marker-forgetting step of the 2.x presentation handler is the identity, the chains are the
+  same up to that decorator); a 1.x protocol never touches the marker buffer
+  (`dispatch_old_keeps_ibuf`); the non-interference traversal `Lemmas/Resp.lean`; a version report
+  moves both gateways to the *same* protocol, after which `step_same_protocol` applies.
 -/
 import AioMySensors.Properties.C07
 import AioMySensors.Lemmas.Safe
 import AioMySensors.Lemmas.Resp
+import AioMySensors.Lemmas.Across
+import AioMySensors.Properties.C05
 
 namespace AioMySensors.C19
 open AioMySensors M
@@ -280,8 +300,254 @@ theorem fresh_similar (v w : Ver) (pv1 pv2 : Str) :
     SimSt v w { pv := some pv1, proto := v } { pv := some pv2, proto := w } :=
   ⟨rfl, rfl, rfl, rfl, Or.inl ⟨rfl, rfl⟩⟩
 
+/-! ### Whole histories across the lines 1.x → 2.x -/
+
+/-- States of an older (1.x) and a newer (2.x) gateway that agree (`SimSt`) and — while the two still
+run different protocols — hold no presentation-request marker (in 1.x none is ever written). -/
+structure CrossSt (v w : Ver) (s1 s2 : St) : Prop where
+  sim : SimSt v w s1 s2
+  nomark : s1.proto ≠ s2.proto → NoMarkers s2.ibuf
+
+/-- A received line stays within the older protocol `v` and is not gateway-ready. -/
+def LineOKAcross (v : Ver) (line : Str) : Prop :=
+  ∀ m, decode v line = some m → TypeExists v m ∧ ¬ (m.cmd = 3 ∧ m.type = Gen.iGatewayReady)
+
+def OpOKAcross (v : Ver) : Op → Prop
+  | .recv _ line _ => LineOKAcross v line
+  | .send _ _ _ => True
+
+/-- **No unknown node or child is referenced in this step** of the older gateway (state `s`, still
+running `v`): its handler — everything inside the version-query decorator — raises no
+`MissingNodeError` / `MissingChildError` on the received message. -/
+def StepRefsKnown (v : Ver) (s : St) : Op → Prop
+  | .recv env line faults =>
+    s.proto = v → ∀ m, decode v line = some m → ¬ RaisesMissing env v m { st := s, faults := faults }
+  | .send _ _ _ => True
+
+/-- No unknown node or child is referenced anywhere along the older gateway's run. -/
+def RunRefsKnown (v : Ver) : St → List Op → Prop
+  | _, [] => True
+  | s, op :: ops => StepRefsKnown v s op ∧ RunRefsKnown v (stepOp s op).1 ops
+
+theorem sameObs_recv {v w : Ver} (s1 s2 : St) (env : Env) (line : Str) (faults : List Bool)
+    (h : (recv env line { st := s1, faults := faults }).1 = (recv env line { st := s2, faults := faults }).1 ∧
+      Sim v w (recv env line { st := s1, faults := faults }).2 (recv env line { st := s2, faults := faults }).2) :
+    SameObs (stepOp s1 (.recv env line faults)).2 (stepOp s2 (.recv env line faults)).2 ∧
+    SimSt v w (stepOp s1 (.recv env line faults)).1 (stepOp s2 (.recv env line faults)).1 := by
+  refine ⟨⟨?_, ?_⟩, ?_⟩
+  · rw [stepOp_recv_out, stepOp_recv_out, h.1]
+  · rw [stepOp_recv_writes, stepOp_recv_writes]; exact h.2.writes
+  · rw [stepOp_recv_st, stepOp_recv_st]; exact h.2.st
+
+theorem sameObs_send {v w : Ver} (s1 s2 : St) (obj : Option Msg) (b : Bool) (faults : List Bool)
+    (h : (apiSend obj b { st := s1, faults := faults }).1 = (apiSend obj b { st := s2, faults := faults }).1 ∧
+      Sim v w (apiSend obj b { st := s1, faults := faults }).2 (apiSend obj b { st := s2, faults := faults }).2) :
+    SameObs (stepOp s1 (.send obj b faults)).2 (stepOp s2 (.send obj b faults)).2 ∧
+    SimSt v w (stepOp s1 (.send obj b faults)).1 (stepOp s2 (.send obj b faults)).1 := by
+  refine ⟨⟨?_, ?_⟩, ?_⟩
+  · rw [stepOp_send_out, stepOp_send_out, h.1]
+  · rw [stepOp_send_writes, stepOp_send_writes]; exact h.2.writes
+  · rw [stepOp_send_st, stepOp_send_st]; exact h.2.st
+
+/-- Two gateways running the same protocol `p` from states that agree: any operation at all gives the
+same outcome and writes, and they keep running the same protocol. -/
+theorem step_same_protocol (p : Ver) (s1 s2 : St) (hs : SimSt p p s1 s2) (op : Op) :
+    SameObs (stepOp s1 op).2 (stepOp s2 op).2 ∧ SimSt p p (stepOp s1 op).1 (stepOp s2 op).1 := by
+  have hsim : ∀ faults, Sim p p { st := s1, faults := faults } { st := s2, faults := faults } :=
+    fun _ => ⟨hs, rfl, rfl⟩
+  have hpe : s1.proto = s2.proto := by
+    rcases hs.proto with ⟨a, b⟩ | h
+    · rw [a, b]
+    · exact h
+  cases op with
+  | send obj b faults => exact sameObs_send s1 s2 obj b faults ((resp_apiSend obj b).run _ _ (hsim faults))
+  | recv env line faults =>
+    refine sameObs_recv s1 s2 env line faults ?_
+    simp only [recv, M.bind, M.getSt]
+    rw [← hpe]
+    cases hd : decode s1.proto line with
+    | none => exact ⟨rfl, hsim faults⟩
+    | some m => exact (resp_dispatch env s1.proto m).run _ _ (hsim faults)
+
+/-- **One operation across the lines.** The older gateway runs `v` ∈ {1.4, 1.5}, the newer one
+`w` ≥ 2.0 (or both the same protocol after a version report).  If the message's type exists in `v`,
+it is not gateway-ready and the older gateway's handler raises no missing-node/child error, both
+give the same outcome and the same writes and end in states that agree in the same way. -/
+theorem step_stable_across_lines (v w : Ver) (hv : v = .v14 ∨ v = .v15) (hw : Ver.v20 ≤ w) (s1 s2 : St)
+    (hs : CrossSt v w s1 s2) (op : Op) (hop : OpOKAcross v op) (href : StepRefsKnown v s1 op) :
+    SameObs (stepOp s1 op).2 (stepOp s2 op).2 ∧ CrossSt v w (stepOp s1 op).1 (stepOp s2 op).1 := by
+  have hvw : v ≠ w := by rcases hv with rfl | rfl <;> (intro h; subst h; exact absurd hw (by decide))
+  rcases hs.sim.proto with ⟨hp1, hp2⟩ | hpe
+  · -- different lines
+    have hnm : NoMarkers s2.ibuf := hs.nomark (by rw [hp1, hp2]; exact hvw)
+    cases op with
+    | send obj b faults =>
+      obtain ⟨hobs, hst⟩ := sameObs_send s1 s2 obj b faults
+        ((resp_apiSend (v := v) (w := w) obj b).run { st := s1, faults := faults } { st := s2, faults := faults } ⟨hs.sim, rfl, rfl⟩)
+      refine ⟨hobs, hst, fun _ => ?_⟩
+      rw [stepOp_send_st, show (apiSend obj b { st := s2, faults := faults }).2.st.ibuf = s2.ibuf from
+        (ki_apiSend obj b).step { st := s2, faults := faults }]
+      exact hnm
+    | recv env line faults =>
+      have hsim : Sim v w { st := s1, faults := faults } { st := s2, faults := faults } := ⟨hs.sim, rfl, rfl⟩
+      have key : ((recv env line { st := s1, faults := faults }).1 = (recv env line { st := s2, faults := faults }).1 ∧
+          Sim v w (recv env line { st := s1, faults := faults }).2 (recv env line { st := s2, faults := faults }).2) ∧
+          (recv env line { st := s2, faults := faults }).2.st.ibuf = s2.ibuf := by
+        simp only [recv, M.bind, M.getSt]
+        rw [hp1, hp2, ← decode_version_independent v w line]
+        cases hd : decode v line with
+        | none => exact ⟨⟨rfl, hsim⟩, rfl⟩
+        | some m =>
+          simp only []
+          obtain ⟨hex, hgr⟩ := hop m hd
+          have hcmd := decode_cmd_range hd
+          have hm1 : ¬ RaisesMissing env v m { st := s1, faults := faults } := href hp1 m hd
+          have hm2 : ¬ RaisesMissing env v m { st := s2, faults := faults } := by
+            have := ((resp_handlerBody (v' := v) (w' := w) env v m).run _ _ hsim).1
+            unfold RaisesMissing at hm1 ⊢
+            rw [← this]; exact hm1
+          rw [dispatch_across env v w hv hw m hcmd (fun h3 => ⟨hex.1 h3, fun h14 => hgr ⟨h3, h14⟩⟩)
+            { st := s2, faults := faults } hnm hm2]
+          exact ⟨(resp_dispatch env v m).run _ _ hsim, (dispatch_old_keeps_ibuf env v hv m).step { st := s2, faults := faults }⟩
+      obtain ⟨hobs, hst⟩ := sameObs_recv s1 s2 env line faults key.1
+      refine ⟨hobs, hst, fun _ => ?_⟩
+      rw [stepOp_recv_st, key.2]
+      exact hnm
+  · -- both on the same protocol already: nothing about the message matters any more
+    have hs' : SimSt s1.proto s1.proto s1 s2 := ⟨hs.sim.nodes, hs.sim.ibuf, hs.sim.sbuf, hs.sim.known, Or.inr hpe⟩
+    obtain ⟨hobs, hst⟩ := step_same_protocol s1.proto s1 s2 hs' op
+    have hpe' : (stepOp s1 op).1.proto = (stepOp s2 op).1.proto := by
+      rcases hst.proto with ⟨a, b⟩ | h
+      · rw [a, b]
+      · exact h
+    exact ⟨hobs, ⟨hst.nodes, hst.ibuf, hst.sbuf, hst.known, Or.inr hpe'⟩, fun hne => absurd hpe' hne⟩
+
+/-- **Every history across the lines, at handler level** (this form also covers the phase in which
+no version is known yet).  Two gateways, the older on `v` ∈ {1.4, 1.5}, the newer on `w` ≥ 2.0,
+started from states that agree and hold no marker, fed the same history — received lines with
+arbitrary write faults, `send` calls — whose message types all exist in `v`, without gateway-ready,
+and along which the older gateway's handlers raise no missing-node/child error: outcomes and
+writes agree at every step and the final states agree in the same way.  A version report moves
+both gateways to the same protocol (both select by the same reported string); from then on nothing
+is required of the messages. -/
+theorem history_stable_across_lines_handlers (v w : Ver) (hv : v = .v14 ∨ v = .v15) (hw : Ver.v20 ≤ w)
+    (ops : List Op) (hops : ∀ op ∈ ops, OpOKAcross v op) (s1 s2 : St) (hs : CrossSt v w s1 s2)
+    (href : RunRefsKnown v s1 ops) :
+    AllSame (run s1 ops).2 (run s2 ops).2 ∧ CrossSt v w (stateAfter s1 ops) (stateAfter s2 ops) := by
+  induction ops generalizing s1 s2 with
+  | nil => exact ⟨by simp [run, AllSame], by simpa [stateAfter, run] using hs⟩
+  | cons op ops ih =>
+    obtain ⟨hobs, hst⟩ := step_stable_across_lines v w hv hw s1 s2 hs op (hops op (by simp)) href.1
+    obtain ⟨h1, h2⟩ := ih (fun o ho => hops o (by simp [ho])) _ _ hst href.2
+    exact ⟨by simpa [run, AllSame] using ⟨hobs, h1⟩, by simpa [stateAfter, run] using h2⟩
+
+/-! #### The same, from what the older run shows -/
+
+/-- The step did not end in a `MissingNodeError` or a `MissingChildError`. -/
+def NoMissingOutcome (o : Obs) : Prop :=
+  ∀ id, o.out ≠ .error (.lib (.missingNode id)) ∧ o.out ≠ .error (.lib (.missingChild id))
+
+/-- A gateway runs a 2.x protocol only after a version was reported: while none is known the
+default protocol 1.4 is active (`C05.Coherent`, an invariant of every history — `C05.coherent_history`). -/
+theorem version_known_on_newer_line (s : St) (hc : C05.Coherent s) (h : Ver.v20 ≤ s.proto) : s.pv.isSome = true := by
+  unfold C05.Coherent at hc
+  cases hp : s.pv with
+  | some p => rfl
+  | none =>
+    rw [hp] at hc
+    simp only at hc
+    rw [hc] at h
+    exact absurd h (by decide)
+
+theorem stepOp_keeps_known (s : St) (op : Op) (h : s.pv.isSome = true) : (stepOp s op).1.pv.isSome = true := by
+  cases op with
+  | recv env line faults => rw [stepOp_recv_st]; exact (recv_keeps_known env line).step { st := s, faults := faults } h
+  | send obj b faults => rw [stepOp_send_st]; exact (apiSend_keeps_known obj b).step { st := s, faults := faults } h
+
+/-- With the version known the version-query decorator adds nothing, so a missing error raised by
+the handler is the step's outcome: a step that does not show one raised none. -/
+theorem stepRefsKnown_of_observed (v : Ver) (hv : v = .v14 ∨ v = .v15) (s : St) (op : Op)
+    (hk : s.pv.isSome = true) (hobs : NoMissingOutcome (stepOp s op).2) : StepRefsKnown v s op := by
+  cases op with
+  | send obj b faults => trivial
+  | recv env line faults =>
+    intro hp m hd hr
+    apply hr
+    intro e he
+    cases hc : missingCaught e with
+    | false => rfl
+    | true =>
+      exfalso
+      have hkn : (handlerBody env v m { st := s, faults := faults }).2.st.pv.isSome = true :=
+        (handlerBody_keeps_known env v m).step { st := s, faults := faults } hk
+      have hrecv : (recv env line { st := s, faults := faults }).1 = .error e := by
+        simp only [recv, M.bind, M.getSt]
+        rw [hp, hd]
+        simp only []
+        rw [dispatch_old env v hv m (decode_cmd_range hd), wrapMissingPV_known _ _ _ hkn]
+        exact he
+      have hout : (stepOp s (.recv env line faults)).2.out = .error e := by rw [stepOp_recv_out, hrecv]
+      cases e with
+      | foreign c => simp [missingCaught] at hc
+      | lib l =>
+        cases l with
+        | missingNode id => exact (hobs id).1 hout
+        | missingChild id => exact (hobs id).2 hout
+        | _ => simp [missingCaught] at hc
+
+theorem runRefsKnown_of_observed (v : Ver) (hv : v = .v14 ∨ v = .v15) (ops : List Op) (s : St)
+    (hk : s.pv.isSome = true) (hobs : ∀ o ∈ (run s ops).2, NoMissingOutcome o) : RunRefsKnown v s ops := by
+  induction ops generalizing s with
+  | nil => trivial
+  | cons op ops ih =>
+    have hrun : (run s (op :: ops)).2 = (stepOp s op).2 :: (run (stepOp s op).1 ops).2 := by simp [run]
+    rw [hrun] at hobs
+    exact ⟨stepRefsKnown_of_observed v hv s op hk (hobs _ (by simp)),
+      ih _ (stepOp_keeps_known s op hk) fun o ho => hobs o (by simp [ho])⟩
+
+/-- **Every history across the lines 1.x → 2.x.**  Two gateways that know their version, the older
+on `v` ∈ {1.4, 1.5}, the newer on `w` ≥ 2.0, started from states that agree and hold no
+presentation-request marker, fed the same history (received lines with arbitrary write-fault
+schedules, and `send` calls) in which every line that decodes has a type that exists in `v` and is
+not gateway-ready, and such that **the older gateway's run never ends a step with a
+`MissingNodeError` or `MissingChildError`** ("no unknown node or child is referenced"): the
+outcomes and the writes agree at every step, and the final states agree in the same relation —
+registry, both buffers, whether a version is known, and the active protocols are still `(v, w)` or,
+after a version report, the same one.
+
+Extra precondition `hk` (the version is known), and why it is the precise one: with no version
+known the hypothesis on the observations is *not* enough — a battery report from an unknown node
+whose version query cannot be written ends, in 1.x, with the transport error (the missing-node
+error is replaced in the `finally` clause), while 2.x has by then attempted a presentation request.
+But that state is not reachable on different lines: a gateway runs 2.x only after a version was
+reported (`version_known_on_newer_line`, from `C05.coherent_history`), and agreeing states know a
+version together (`SimSt.known`); once known it stays known (`stepOp_keeps_known`).  Histories that
+start with no version known are covered by `history_stable_across_lines_handlers`, where the
+hypothesis is put on the handler's own error instead. -/
+theorem history_stable_across_lines (v w : Ver) (hv : v = .v14 ∨ v = .v15) (hw : Ver.v20 ≤ w)
+    (ops : List Op) (hops : ∀ op ∈ ops, OpOKAcross v op) (s1 s2 : St) (hs : CrossSt v w s1 s2)
+    (hk : s1.pv.isSome = true) (hobs : ∀ o ∈ (run s1 ops).2, NoMissingOutcome o) :
+    AllSame (run s1 ops).2 (run s2 ops).2 ∧ CrossSt v w (stateAfter s1 ops) (stateAfter s2 ops) :=
+  history_stable_across_lines_handlers v w hv hw ops hops s1 s2 hs (runRefsKnown_of_observed v hv ops s1 hk hobs)
+
+/-- Two fresh gateways that were told versions of different lines agree in the required way. -/
+theorem fresh_similar_across (v w : Ver) (pv1 pv2 : Str) :
+    CrossSt v w { pv := some pv1, proto := v } { pv := some pv2, proto := w } :=
+  ⟨fresh_similar v w pv1 pv2, fun _ => noMarkers_nil⟩
+
 /-! Non-vacuity -/
 example : TypeExists .v14 ⟨1, 255, 3, 0, 6, []⟩ := by constructor <;> decide
 example : SameLine .v20 .v22 = true := by decide
+example : CrossSt .v15 .v21 { pv := some "1.5".toList, proto := .v15 } { pv := some "2.1".toList, proto := .v21 } :=
+  fresh_similar_across _ _ _ _
+example : NoMissingOutcome ⟨.error (.lib .transportFailed), []⟩ := fun _ => ⟨by simp, by simp⟩
+/-- A log message references nothing: the hypothesis of the handler-level theorem holds for it in every state. -/
+example (env : Env) (s : St) (faults : List Bool) :
+    ¬ RaisesMissing env .v14 ⟨1, 255, 3, 0, 9, []⟩ { st := s, faults := faults } := by
+  intro h
+  apply h
+  rw [(handlerBody_cases env .v14 ⟨1, 255, 3, 0, 9, []⟩).2.2.2.1 rfl, internal_log env .v14 _ rfl]
+  intro e he
+  simp [M.pure] at he
 
 end AioMySensors.C19
